@@ -47,10 +47,12 @@ def admissible(ss, k):
         for ci, c in enumerate(s):
             for i in range(len(c) - k + 1):
                 w = c[i:i + k]
-                sk, _m, _f, pal = M.canon_split(w, True)
+                sk, _m, flip, pal = M.canon_split(w, True)
                 if pal:
                     return False
-                if loc.setdefault(sk, (ci, i)) != (ci, i):
+                # one locus AND one orientation: two samples whose windows at the same place differ at both ends can
+                # store the same arms from opposite strands (inner k-2 bases with self-complementary arms)
+                if loc.setdefault(sk, (ci, i, flip)) != (ci, i, flip):
                     return False
     return True
 
